@@ -402,6 +402,13 @@ def run_heap(ops, share=False):
                 env.append(env[op[1]].newaxis(op[2], pos=op[3]))
             elif t == "slice":
                 env.append(env[op[1]].take(slice(op[3], op[4], op[5]), axis=op[2], indexing="position"))
+            elif t == "ds_var":
+                from dimarray import Dataset as _Dataset
+                _ds = _Dataset()
+                _ds["v"] = env[op[1]]
+                if _ds["v"] is not _ds["v"]:
+                    raise AssertionError("ds['v'] is not ds['v']")
+                env.append(_ds["v"])
             elif t == "sum":
                 if env[op[1]].ndim < 2:
                     raise Outside("a scalar result is not an array")
@@ -477,7 +484,8 @@ class C15(Prop):
     theorems = ["Heap.apply_extends", "Heap.obsArr_append", "Heap.wf_step", "Heap.wf_run", "Heap.wf_step_counterexample", "Heap.nonmut_frame", "Heap.nonmut_history_frame", "Heap.deepCopy_spec", "Heap.mutate_below", "Heap.mutate_above", "Heap.obsArr_below", "Heap.obsArr_above", "Heap.separation_below", "Heap.separation_above", "Heap.copy_independent", "Heap.copy_independent_rev",
                 "Heap.xapply_extends", "Heap.xnonmut_frame", "Heap.xnonmut_history_frame", "Heap.transpose_shares", "Heap.swapaxes_shares",
                 "Heap.rollaxis_shares", "Heap.tT_rank0_same", "Heap.newaxis_shares_values", "Heap.reduceSum_shares_axes",
-                "Heap.write_through_view", "Heap.write_through_view_counterexample", "Heap.fresh_values_independent"]
+                "Heap.write_through_view", "Heap.write_through_view_counterexample", "Heap.fresh_values_independent",
+                "Heap.dsVar_shares", "Heap.xwf_step", "Heap.xwf_run", "Heap.xwf_step_counterexample", "Heap.xmixed_history_frame", "Heap.xmixed_step_frame"]
     rule = ("(heap) object-level histories of 2-9 steps over 1-5 live arrays of rank 1-3: create (unsorted integer labels, "
             "metadata with atoms and mutable lists on the array and on its axes), copy(), transpose, squeeze, a[:], "
             "take(scalar), take(list), a + k, sort_axis, and in-place mutations through any live array (a value cell, a label, "
@@ -508,7 +516,14 @@ class C15(Prop):
                    "alignment of operands with different labels, flatten / reshape, cumulative functions, Dataset operations) the "
                    "property is decided by the snapshot monitor over generated calls only (a search, not a proof)",
                    "the extended operations (Lib/HeapX.lean) have the frame theorems and the sharing statements; invariance of "
-                   "well-formedness (wf_step) is proved for the operations of Lib/Heap.lean only",
+                   "well-formedness is proved for them too (xwf_step / xwf_run, with in-place mutations interleaved), so the frame "
+                   "theorem holds for the non-mutating stretches of every mixed history from a well-formed initial heap "
+                   "(xmixed_history_frame); hypothesis: every create is given as many axes as dimensions (XOpOK)",
+                   "heapx ds_var (ds = Dataset(); ds['v'] = a; b = ds['v']): b is a new object but b.values IS a.values and b.attrs IS "
+                   "a.attrs (dataset.py __setitem__ makes copy.copy(val) and deep-copies only the axes): every write to values "
+                   "(b.values[...] = x, b[...] = x, ds['v'][...] = x, in-place operators) and every write to b.attrs reaches the assigned "
+                   "array a; writes to b's axes (labels, names, axis attrs) do not (they reach the Dataset's axes and the other variables "
+                   "of the Dataset instead). Modelled as such (dsVar_shares), not judged",
                    "heapx: steps the model does not cover (a + b that needs aligning, sum of a rank-1 array = a scalar, reindex_axis "
                    "with absent labels or over duplicate labels) are refused by a guard on both sides"]
 
@@ -628,7 +643,7 @@ class C15(Prop):
                 nsh, nlb = [sh[p] for p in op[2]], [list(lb[p]) for p in op[2]]
             elif t == "squeeze":
                 nsh, nlb = [x for x in sh if x != 1], [list(l) for x, l in zip(sh, lb) if x != 1]
-            elif t in ("slice_all", "add", "add_arr"):
+            elif t in ("slice_all", "add", "add_arr", "ds_var"):
                 nsh, nlb = list(sh), [list(x) for x in lb]
                 if t == "add_arr":
                     g = max(groups) + 1
@@ -670,7 +685,9 @@ class C15(Prop):
             sh, lb = shapes[k], labs[k]
             rank = len(sh)
             t = rng.choice(["swapaxes", "rollaxis", "T", "T", "newaxis", "newaxis", "slice", "slice", "sum", "add_arr", "add_arr",
-                            "reindex", "reindex"])
+                            "reindex", "reindex", "ds_var", "ds_var"])
+            if t == "ds_var" and rank >= 1:
+                return ["ds_var", k]
             if t == "swapaxes" and rank >= 1:
                 return ["swapaxes", k, rng.randrange(rank), rng.randrange(rank)]
             if t == "rollaxis" and rank >= 1:
